@@ -63,7 +63,7 @@ and every clause order, `Parse` of the rendered WKT text succeeds and the fields
 exactly `expected c`. -/
 theorem wkt_parse_agree (c : Crs) (st : Style) (hw : wellFormed c = true) (hn : numeralsRead c = true)
     (hlo : st.leaveOut = 0) (hup : st.unitPos ≤ 2) (hf : SpheroidFacts c.a.toRat c.rf.toRat) :
-    ∃ r, parse (α := XR) (toWkt c st) = .ok r ∧ view r = some (expected c) := by
+    ∃ r, parse (α := XR) (toWkt c st) = .ok r ∧ view r = some (expected c) ∧ r.datumCode = datumCodeOf (wktDatumName c st) := by
   have hnum : ∀ d ∈ decsOf c, NumOK d := numOK_mem c hn
   obtain ⟨_, _, _, _, _, hdw⟩ := wf_parts c hw
   obtain ⟨kw, rest, hkw, hshape⟩ := toWkt_shape c st
@@ -105,6 +105,9 @@ theorem wkt_parse_agree (c : Crs) (st : Style) (hw : wellFormed c = true) (hn : 
     rw [htest]
     rfl
   rw [hparse, hwkt]
-  exact derive_view c _ hf hdw (wkt_coreOK c st hw)
+  obtain ⟨r, h1, h2, h3⟩ := derive_view c _ hf hdw (wkt_coreOK c st hw)
+  refine ⟨r, h1, h2, ?_⟩
+  rw [h3]
+  exact wktFinish_datumCode c st
 
 end GeomV.C20
